@@ -23,11 +23,23 @@ if [ "$cmd" = keep ]; then
   rm -f /tmp/seeded-$id.diff
   echo "kept as seeded/$id"
 elif [ "$cmd" = run ]; then
+  # By default the patch is applied to /repo itself and undone straight afterwards.  With SEEDED_COPY=1 a
+  # private copy of /repo's HEAD is patched instead and the check is pointed at it with VERIF_REPO (used
+  # while other processes are reading /repo).
   id="$2"; prop="$3"; tier="${4:-quick}"
-  git -C /repo diff --quiet || { echo "/repo has uncommitted changes"; exit 2; }
-  git -C /repo apply "$ROOT/seeded/$id/patch.diff" || exit 2
-  "$ROOT/bin/check" "$prop" "$tier" > "$ROOT/.work/seeded-$id-$prop.log" 2>&1; rc=$?
-  git -C /repo checkout -- .
+  mkdir -p "$ROOT/.work"
+  if [ "${SEEDED_COPY:-0}" = 1 ]; then
+    copy=/tmp/seeded-repo-$$
+    rm -rf "$copy"; git -C /repo worktree add -q --detach "$copy" HEAD || exit 2
+    git -C "$copy" apply "$ROOT/seeded/$id/patch.diff" || { git -C /repo worktree remove --force "$copy"; exit 2; }
+    VERIF_REPO="$copy" "$ROOT/bin/check" "$prop" "$tier" > "$ROOT/.work/seeded-$id-$prop.log" 2>&1; rc=$?
+    git -C /repo worktree remove --force "$copy"
+  else
+    git -C /repo diff --quiet || { echo "/repo has uncommitted changes"; exit 2; }
+    git -C /repo apply "$ROOT/seeded/$id/patch.diff" || exit 2
+    "$ROOT/bin/check" "$prop" "$tier" > "$ROOT/.work/seeded-$id-$prop.log" 2>&1; rc=$?
+    git -C /repo checkout -- .
+  fi
   tail -4 "$ROOT/.work/seeded-$id-$prop.log"
   echo "seeded $id on $prop $tier: exit $rc"
   exit $rc
